@@ -4,12 +4,12 @@ from .. import gen
 from ..gen import Opt, schema_lines, LIST, MULTI, TITLE, NOCASE, COMMENTS, DEPRECATED, KEYSTRVAL, NO_TITLE_DUPES, dbits
 
 THEOREMS = ["C05_str", "C05_int", "C05_bool", "C05_null_prints_empty", "dqRun_escBody", "decDigits_spec", "C05_name", "C05_name_plain", "C05_name_quoted",
-            "C05_flat_roundtrip", "C05_flat_fixpoint", "printOpts_congr", "flat_steps", "opt_step", "lex_opts", "lex_value", "loop_steps", "pstep_pending", "lexSteps_length", "C05_section_item", "pstep_name_sec", "pstep_lbrace_sec", "pstep_rbrace_pop", "setopt_new_untitled", "inst_steps", "tree1_steps", "C05_tree1_roundtrip", "lex_tree1", "lex_insts", "lex_instance", "lex_opts_indent", "accept_of_steps", "C05_single_section_item", "setopt_single", "pstep_lbrace_single", "C05_tree_steps", "tree1_steps_gen", "inst_steps_gen", "section_item_gen", "single_section_item_gen", "bodySteps_flat"]
+            "C05_flat_roundtrip", "C05_flat_fixpoint", "printOpts_congr", "flat_steps", "opt_step", "lex_opts", "lex_value", "loop_steps", "pstep_pending", "lexSteps_length", "C05_section_item", "pstep_name_sec", "pstep_lbrace_sec", "pstep_rbrace_pop", "setopt_new_untitled", "inst_steps", "tree1_steps", "C05_tree1_roundtrip", "lex_tree1", "lex_insts", "lex_instance", "lex_opts_indent", "accept_of_steps", "C05_single_section_item", "setopt_single", "pstep_lbrace_single", "C05_tree_steps", "tree1_steps_gen", "inst_steps_gen", "section_item_gen", "single_section_item_gen", "bodySteps_flat", "C05_tree_roundtrip", "lex_tree", "lex_tree1_gen", "lex_insts_gen", "lex_instance_gen", "treeToks_no_rparen"]
 PARTIAL = ("Proved (leaf round trips, unbounded): every string or title without NUL printed by cfg_print scans back to itself in any environment "
            "(C05_str: quotes, backslashes, '${', newlines, comment markers - induction over the bytes); every long printed with %ld converts "
            "back to itself (C05_int, via the numeral-grammar theorem of C04 and a digit lemma); booleans (C05_bool); every option name - the keys of a "
            "free-form section can be any string - is written so that the scanner returns exactly it as one token in front of what follows (C05_name: "
-           "as it is when it is a plain word, quoted otherwise; found and fixed F33). And, at token level, one whole printed SECTION INSTANCE (C05_section_item, Props/C05S): from an item boundary of a frame with the same declarations, the tokens `name { body }` of a printed instance of an untitled multi section - body = the tokens of its flat contents - push a frame holding a fresh instance built from the option's own declarations, run the body there (flat_steps, which holds under any enclosing frames), and at the closing brace write the instance back: the section option has ONE MORE instance, holding option by option exactly the printed values; everything else is as it was; any number of instances in a row (inst_steps); a SINGLE section's printed instance enters the instance the context already holds, whatever it holds, and leaves it holding the printed values (C05_single_section_item); and a whole configuration ONE LEVEL DEEP (tree1_steps): plain options, untitled multi sections and single sections with flat bodies in any mix, fed into a context with the same declarations whose multi sections have no instances yet and whose single sections hold their instance (as cfg_init leaves them) - every plain option ends up holding the printed values and every section option exactly the printed instances, in order, each holding the printed values. And at token level for ANY nesting depth (C05_tree_steps, Props/C05R): the depth-one development with the body of a section abstracted (BodySteps: what the tokens of an option list do to any frame holding the declared counterparts) - assumed for section bodies, proved for the option list around them (section_item_gen, single_section_item_gen, inst_steps_gen, tree1_steps_gen) - and closed by induction on the depth: plain options, untitled multi sections and single sections nested in one another to any depth are reproduced value by value, instance by instance. And that depth-one round trip at BYTE level too (C05_tree1_roundtrip, Props/C05T): the bytes cfg_print writes for such a configuration - indentation, 'name {' lines, bodies at indentation 1, closing braces - scan to exactly those tokens (lex_tree1, lex_insts, lex_instance; blanks in front of a token change nothing: lexSteps_indent), the parse loop takes them, and the end of the input is accepted (accept_of_steps): parseBuf(cfgPrint c) into any context with the same declarations and still empty section options returns 0 and leaves every plain option and every section instance holding the printed values. And the whole round trip for FLAT configurations at byte level "
+           "as it is when it is a plain word, quoted otherwise; found and fixed F33). And, at token level, one whole printed SECTION INSTANCE (C05_section_item, Props/C05S): from an item boundary of a frame with the same declarations, the tokens `name { body }` of a printed instance of an untitled multi section - body = the tokens of its flat contents - push a frame holding a fresh instance built from the option's own declarations, run the body there (flat_steps, which holds under any enclosing frames), and at the closing brace write the instance back: the section option has ONE MORE instance, holding option by option exactly the printed values; everything else is as it was; any number of instances in a row (inst_steps); a SINGLE section's printed instance enters the instance the context already holds, whatever it holds, and leaves it holding the printed values (C05_single_section_item); and a whole configuration ONE LEVEL DEEP (tree1_steps): plain options, untitled multi sections and single sections with flat bodies in any mix, fed into a context with the same declarations whose multi sections have no instances yet and whose single sections hold their instance (as cfg_init leaves them) - every plain option ends up holding the printed values and every section option exactly the printed instances, in order, each holding the printed values. And at token level for ANY nesting depth (C05_tree_steps, Props/C05R): the depth-one development with the body of a section abstracted (BodySteps: what the tokens of an option list do to any frame holding the declared counterparts) - assumed for section bodies, proved for the option list around them (section_item_gen, single_section_item_gen, inst_steps_gen, tree1_steps_gen) - and closed by induction on the depth: plain options, untitled multi sections and single sections nested in one another to any depth are reproduced value by value, instance by instance. And at BYTE level for any depth as well (C05_tree_roundtrip d): parseBuf(cfgPrint c) = accepted, with the values and instances of c at every depth - the printed text scans, at every indentation, to the depth-d token relation (lex_tree, by the same body abstraction: LexBody; lex_instance_gen, lex_insts_gen, lex_tree1_gen), then C05_tree_steps and accept_of_steps. And, first proved on its own, that depth-one round trip at BYTE level (C05_tree1_roundtrip, Props/C05T): the bytes cfg_print writes for such a configuration - indentation, 'name {' lines, bodies at indentation 1, closing braces - scan to exactly those tokens (lex_tree1, lex_insts, lex_instance; blanks in front of a token change nothing: lexSteps_indent), the parse loop takes them, and the end of the input is accepted (accept_of_steps): parseBuf(cfgPrint c) into any context with the same declarations and still empty section options returns 0 and leaves every plain option and every section instance holding the printed values. And the whole round trip for FLAT configurations at byte level "
            "(C05_flat_roundtrip, ~1 500 lines in Props/C05F, C05B, C05L and Lemmas/Assign): the bytes the print model writes for a context whose "
            "options are top-level integer / boolean / string options, scalar or list of any length, without callbacks, annotations or print filter "
            "(cells in range, non-NULL, NUL-free), scanned by the scanner model, taken by the parse loop and fed through the token machine into ANY "
